@@ -342,6 +342,16 @@ func (s *state) visitPrint(node *ast.PrintNode) {
 		case "id", "noAutoescape":
 			// no implementation, they just serve as a marker to cancel autoescape.
 		default:
+			switch dir.Name {
+			case "changeNewlineToBr", "insertWordBreaks":
+				// These add markup, so they cancel autoescaping, and as in the Go
+				// renderer the data they pass through is escaped first (the JS
+				// library functions themselves do not escape).
+				directives = append(directives, &ast.PrintDirectiveNode{0, "escapeHtml", nil})
+				if impt := s.options.Formatter.Directive(PrintDirectives["escapeHtml"]); impt != "" {
+					s.funcsCalled["escapeHtml"] = impt
+				}
+			}
 			directives = append(directives, dir)
 			if impt := s.options.Formatter.Directive(directive); impt != "" {
 				s.funcsCalled[dir.Name] = impt
